@@ -87,7 +87,7 @@ var effectFreePrefixes = []string{
 	"(*sync.WaitGroup).", "(*sync.Once).", "sync/atomic.", "(*time.", "os.Hostname", "github.com/google/shlex.",
 	"(*regexp.Regexp).MatchString", "regexp.Compile", "regexp.MustCompile", "regexp.QuoteMeta",
 	"github.com/minio/highwayhash.", "encoding/binary.", "(encoding/binary.",
-	"(*crypto/x509.", "crypto/x509.", "(*crypto/tls.", "crypto/tls.", "encoding/pem.", "crypto/rand.", "crypto/rsa.", "(*math/big.", "math/big.", "encoding/asn1.",
+	"(*crypto/x509.", "(crypto/x509.", "crypto/x509.", "(*crypto/tls.", "crypto/tls.", "(*crypto/rsa.", "encoding/pem.", "crypto/rand.", "crypto/rsa.", "(*math/big.", "math/big.", "encoding/asn1.",
 	"github.com/golang-jwt/jwt/v4.", "(*github.com/golang-jwt/jwt/v4.", "(github.com/golang-jwt/jwt/v4.",
 	"os.Stat", "os.Lstat", "os.ReadFile", "os.ReadDir", "(*os.File).Stat", "(*os.File).Name", "os.Getwd", "os.UserHomeDir", "io.ReadAll",
 }
@@ -303,6 +303,11 @@ func (f *Frame) havocReachable(args []ssa.Value) {
 			vc.set(f.cur, comp, store(m, "(s-ref "+s.T+")", fr))
 			switch t.Elem().Underlying().(type) {
 			case *types.Pointer, *types.Map, *types.Interface, *types.Slice:
+				// a variadic argument list built at the call site: its elements are known, treat each like an argument
+				if elems, ok := varargElems(x); ok {
+					f.havocReachable(elems)
+					continue
+				}
 				f.havocAllExceptLocals()
 				return
 			}
